@@ -70,6 +70,9 @@ func (s sub05) String() string {
 	if s.patient {
 		pt = " patient-client"
 	}
+	if len(s.writer) > 0 {
+		pt += " || W(t1)=" + scriptName(s.writer)
+	}
 	return fmt.Sprintf("%s target=%s prefix=%s:%s paths=%v polls=%d%s", strings.ToLower(s.mode.String()), s.target, s.pOrigin, s.pElems, s.paths, s.polls, pt)
 }
 
@@ -175,6 +178,14 @@ func configs05(tier string) []xplore.Config {
 		for _, p := range []string{"a", "*"} {
 			add(sub05{target: "t1", paths: []string{p}, mode: pb.SubscriptionList_ONCE, writer: sc}, wb)
 			add(sub05{target: "t1", paths: []string{p}, mode: pb.SubscriptionList_POLL, polls: 1, writer: sc}, wb-1)
+		}
+	}
+	// an all-targets call while one target is being REMOVED: the leaves of the
+	// targets that stay are matched for the whole call and must all be returned
+	for _, sc := range [][]wop{{{"remove", ""}}, {{"upd", "a/z"}, {"remove", ""}}} {
+		for _, p := range []string{"a", "*"} {
+			add(sub05{target: "*", paths: []string{p}, mode: pb.SubscriptionList_ONCE, writer: sc}, wb)
+			add(sub05{target: "*", paths: []string{p}, mode: pb.SubscriptionList_POLL, polls: 1, writer: sc}, wb-1)
 		}
 	}
 	return out
